@@ -78,4 +78,25 @@ CLAIMED = {
              "(cut-off None | frame.id <= cut-off) and (None | frame.timestamp <= cut-off), never through a binary search on a non-id key.",
         note="Not decided: what the engines return beyond honouring the filter. The rule found a genuine defect (sketch-only fallback dropped the replay filter), repaired by fix commit 321ffd9.",
         design_ref="DESIGN.md §4 C11"),
+    "C10": dict(
+        technique="MIR edge-cut reachability (acceptance only on the evaluate-true edge), guard dominance (top_k), data-dependence agreement of slice bounds and range",
+        text="Partial: on each of the three engine paths a candidate is accepted only on the true edge of ParsedQuery::evaluate over an EvaluationContext built for it, request.uri / "
+             "request.scope reach the producer's filter or a comparison on the Tantivy and lex paths, a SearchHit is pushed only while hits.len() is below top_k with rank from hits.len(), "
+             "and hit.text is sliced with the same two bounds, in order, that form hit.range.",
+        note="Not decided: that the text satisfies the query semantics, that the frame is active (index membership is C08), byte equality of text with the stored content. "
+             "Untriaged candidate (not armed): search_with_filters_only ignores request.uri/scope and frame status, but is only reachable when the Tantivy engine errors.",
+        design_ref="DESIGN.md §4 C10"),
+    "C16": dict(
+        technique="explicit-flow non-interference (flow- and field-sensitive backward slices) from request.cursor to total_hits and to the candidate producer",
+        text="Partial (cursor non-interference): on each engine path request.cursor must not flow into SearchResponse.total_hits nor into the arguments of the candidate producer; "
+             "the page offset is parse_cursor(request.cursor, the reported total). Decided for explicit flows on all paths.",
+        note="Not decided: equality of the concatenated pages with the one-shot result; implicit (control) flows such as the `produced < offset` skipping. "
+             "Known findings (open): on the Tantivy path the fetch limit depends on the cursor, so total_hits and the ranked list differ per page.",
+        design_ref="DESIGN.md §4 C16"),
+    "C09": dict(
+        technique="explicit-flow taint from the lossy sketch candidate set to the engines' hard filter + guard-edge dominance for the no_sketch escape hatch + fallback presence",
+        text="Partial: decides that no lossy (thresholded, truncated) candidate set becomes the hard filter of the exact engines on the default path, that request.no_sketch really "
+             "disables the stage, and that the Tantivy path keeps its three lex fallbacks with the same filter.",
+        note="Not decided: recall itself (values). Known finding (open): the sketch set is a hard filter on the default path (design decision of the search path).",
+        design_ref="DESIGN.md §4 C09"),
 }
